@@ -237,6 +237,8 @@ class ImplStore:
             return dnp.fourier_transform(d, kw["dim"], kw["zff"], bool(kw.get("shift")), bool(kw.get("convert")))
         if f == "inverse_fourier_transform":
             return dnp.inverse_fourier_transform(d, kw["dim"], kw["zff"], bool(kw.get("shift")), bool(kw.get("convert")))
+        if f == "ndalign":
+            return dnp.ndalign(d, kw["dim"])
         if f == "trace_local":
             g = kw["func"]
             if g == "smooth":
